@@ -115,11 +115,18 @@ def _run(algo, space, batches, history, args):
       problem.metric_information.append(vz.MetricInformation(name='n', goal=vz.ObjectiveMetricGoal.MINIMIZE))
     supporter = local_policy_supporters.InRamPolicySupporter(problem)
     factory = policy_factory.DefaultPolicyFactory()
+    # reproducible schedules: the hosted designers seed themselves from the clock / OS entropy when no seed is given
+    import random as _random
+    import numpy as _np
+    _np.random.seed(20240 + space)
+    _random.seed(7 + space)
     why, refused, n_checked = None, None, 0
-    for r in range(ROUNDS if batches != 4 else 14):
+    for r in range(16 if algo == 'EAGLE_STRATEGY' else (ROUNDS if batches != 4 else 14)):     # (eagle: until the pool is full)
       count = [1, 2, 5][(batches + r) % 3] if batches < 3 else (3 if batches == 3 else 1)
       try:
         policy = factory(problem, algo, supporter, 'study')        # rebuilt per request
+        if hasattr(policy, '_seed') and policy._seed is None:
+          policy._seed = 11 + r                                    # = constructing the policy with an explicit seed
         decision = policy.suggest(pythia.SuggestRequest(study_descriptor=supporter.study_descriptor(), count=count))
       except (ValueError, NotImplementedError, TypeError, KeyError, ImportError, AttributeError) as e:
         refused = '%s: %s' % (type(e).__name__, str(e)[:120])      # "refused with an error" is allowed
